@@ -615,22 +615,55 @@ pub fn run(ctx: &Ctx, sh: &mut Shard) {
         // one case in 60: a polygon / multipolygon of realistic size (star, hole grid, checkerboard, fan of triangles) -
         // valid by construction or not, the oracle decides - now and then with one vertex moved
         let (a, class) = if k % 60 == 9 {
-            let (x, cls) = loop {
-                let (x, cls) = gen_large(&mut r);
-                if matches!(x, IG::Polygon(_) | IG::MultiPolygon(_)) {
-                    break (x, cls);
+            let (x, cls) = if r.chance(1, 3) {
+                let n = crate::gen::long_count(&mut r);
+                (IG::Polygon(vec![crate::gen::long_ring(&mut r, n)]), "large:long_ring")
+            } else {
+                loop {
+                    let (x, cls) = gen_large(&mut r);
+                    if matches!(x, IG::Polygon(_) | IG::MultiPolygon(_)) {
+                        break (x, cls);
+                    }
                 }
             };
-            let x = if r.chance(1, 3) {
+            // half of them as generated; the others with one defect planted in one ring (the oracle decides what it
+            // amounts to): a vertex moved, a spike (out and back along one direction: vertical, horizontal or oblique), a
+            // small loop that leaves a vertex and returns to it (the ring touches itself in that vertex)
+            let x = if r.chance(1, 2) {
+                let plant = |r: &mut Rng, ring: &mut Vec<IP>| {
+                    let n = ring.len();
+                    if n < 4 {
+                        return;
+                    }
+                    let j = 1 + r.below((n - 2) as u64) as usize;
+                    let v = ring[j];
+                    let d = *r.pick(&[(0i64, 1i64), (0, -1), (0, 5), (0, -5), (1, 0), (-3, 0), (2, 2), (-1, 3)]);
+                    match r.below(3) {
+                        0 => ring[j] = (v.0 + r.range(-12, 12), v.1 + r.range(-12, 12)),
+                        1 => {
+                            ring.insert(j + 1, (v.0 + d.0, v.1 + d.1));
+                            ring.insert(j + 2, v);
+                        }
+                        _ => {
+                            ring.insert(j + 1, (v.0 + d.0, v.1 + d.1));
+                            ring.insert(j + 2, (v.0 + d.0 - d.1, v.1 + d.1 + d.0));
+                            ring.insert(j + 3, v);
+                        }
+                    }
+                };
                 match x {
                     IG::Polygon(mut rings) => {
                         let i = r.below(rings.len() as u64) as usize;
-                        let n = rings[i].len();
-                        if n >= 4 {
-                            let j = 1 + r.below((n - 2) as u64) as usize;
-                            rings[i][j] = (rings[i][j].0 + r.range(-12, 12), rings[i][j].1 + r.range(-12, 12));
-                        }
+                        plant(&mut r, &mut rings[i]);
                         IG::Polygon(rings)
+                    }
+                    IG::MultiPolygon(mut ms) => {
+                        let m = r.below(ms.len() as u64) as usize;
+                        if !ms[m].is_empty() {
+                            let i = r.below(ms[m].len() as u64) as usize;
+                            plant(&mut r, &mut ms[m][i]);
+                        }
+                        IG::MultiPolygon(ms)
                     }
                     o => o,
                 }
